@@ -173,9 +173,10 @@ def decide(pid, tier, seed, args, ev):
     for k in known_hits:
         print('KNOWN-FINDING: property=%s %s' % (pid, k['what']), flush=True)
     if violations:
-        os.makedirs(os.path.join(core.VERIF, 'replays'), exist_ok=True)
+        rdir = os.environ.get('VERIF_REPLAY_DIR', os.path.join(core.VERIF, 'replays'))
+        os.makedirs(rdir, exist_ok=True)
         for i, v in enumerate(violations):
-            rp = os.path.join(core.VERIF, 'replays', '%s-%d.json' % (pid, i))
+            rp = os.path.join(rdir, '%s-%d.json' % (pid, i))
             json.dump(v, open(rp, 'w'), indent=1)
             print('VIOLATION property=%s replay=%s' % (pid, rp), flush=True)
             log('   ', v.get('summary', ''))
